@@ -17,10 +17,10 @@ def _c17_ints(s):
 
 def _c17_case(c):
     p = c.split(" ")
-    if p[0] in ("T", "A", "W", "U", "u"):
+    if p[0] in ("T", "A", "W", "V", "U", "u", "X"):
         _, pred, mr, mn, mx, tbl, dflt, cn, kind, data, script, opts = p
         man = ""
-        if kind[0] in "Mm":
+        if kind[0] in "MmIi":
             man, kind = kind[0], kind[1:]
         opts = [] if opts == "-" else opts.split(",")
         unknown, preauth = "u" in opts, "preauth" in opts
@@ -124,14 +124,16 @@ def _vm_res(s):
 
 def _vm_goal(c, o):
     p = c.split(" ")
-    if p[0] in ("T", "A", "W"):
+    if p[0] in ("T", "A", "W", "V"):
         _, pred, mr, mn, mx, tbl, dflt, cn, kind, data, script, _opts = p
         pol = "(table_policy %s %s %s %s [%s] %s)" % (_vm_pred(pred), _z(mr), _z(mn), _z(mx),
                                                      "; ".join(_z(x) for x in _c17_ints(tbl)), _z(dflt))
         man = None
+        if kind[0] in "Ii":
+            return None
         if kind[0] in "Mm":
             man, kind = kind[0] == "M", kind[1:]
-        bk = {"N": "KNone", "R": "KReplay", "O": "KOneShot"}.get(kind[0]) or "(KGetBodyErr %s%%nat)" % kind[1:]
+        bk = {"N": "KNone", "B": "KNoBody", "R": "KReplay", "O": "KOneShot"}.get(kind[0]) or "(KGetBodyErr %s%%nat)" % kind[1:]
         bd = "(mkBody %s %s)" % (bk, _bytes(data))
         if man is not None:
             bd = "(manifest_push_body %s %s)" % ("true" if man else "false", bd)
@@ -175,14 +177,18 @@ def _vm_goal(c, o):
 
 def _c17_vm_sample(d, tier, coq, build, want=300):
     import os, subprocess, collections
-    if tier != "thorough" and not os.environ.get("VERIF_C17_VM"):
-        return []
+    # thorough: 300 goals; quick: a 60-goal sample (a couple of seconds)
+    small = tier != "thorough" and not os.environ.get("VERIF_C17_VM")
+    if small:
+        want = 60
     outs = {}
     with open(os.path.join(d, "model.txt")) as f:
         for l in f:
             i, _, o = l.rstrip("\n").partition(" ")
             outs[i] = o
     quota = {"T": 90, "A": 60, "W": 50, "D": 40, "B": 60}
+    if small:
+        quota = {k: v // 5 for k, v in quota.items()}
     total, stride, got = collections.Counter(), collections.Counter(), collections.Counter()
     with open(os.path.join(d, "cases.txt")) as f:
         for l in f:
@@ -241,11 +247,15 @@ CONFIG = {
         "net/http: http.Client.Do passes the request to the RoundTripper unchanged for the status codes used (no 3xx), Request.Clone shares Body and GetBody, NewRequest installs GetBody for *bytes.Reader; url.Error unwrapping; context.DeadlineExceeded is a net.Error with Timeout()=true",
         "the auth client is modelled as far as re-sending goes: first send; on 401 with a Basic/Bearer challenge rewind and re-send (empty token cache), or re-send with the cached token and, if refused, once more with a fresh token (warm Bearer cache); token fetches are served at once by the scripted transport and are not part of the trace; credential, scope and cache logic is C16's",
         "a float64 below -2^63 does not convert to a positive int64 (true on amd64/arm64); hypothesis of the acceptor-completeness theorem only",
-        "timing: the scripted base transport reads the body at once and then waits its latency on the fake clock of testing/synctest; the context never ends at the same instant as a timer (cancel instants odd, all other instants even), so the select in Transport.RoundTrip is deterministic in every generated case",
+        "Retry-After: only what strconv.ParseInt reads as a positive integer is honoured (delay-seconds, also with a leading '+'); an HTTP-date (the other half of RFC 9110's grammar), padded or fractional values are NOT honoured by the code -- the exponential backoff applies; modelled as written (parse_int64), compared on all these forms; C17_retry_after covers the integer form with n*1e9 < 2^63 (larger values wrap and are clamped like any other backoff)",
+        "MinWait > MaxWait (ill-formed policy): the bounds clause is vacuous; the code returns MaxWait (C17_pause_min_gt_max); generated and compared",
+        "the acceptor for jittered pauses is proved complete (never rejects a pause the model can produce), not sound; about 1% of the exponential-backoff points near a float64 decision boundary are left unjudged; the pause bounds themselves are judged exactly by the oracle on every point",
+        "an equivalent rewrite of the two syntactic source facts the model follows (jitter guard: n > 0 / n >= 1 / early return are recognised; ctx.Err() re-check in the `case <-timer.C` clause) in another shape flips the generated flag and is reported as a broken proof layer without failing input",
+        "timing: the scripted base transport reads the body at once and then waits its latency on the fake clock of testing/synctest; the context never ends at the instant a timer of positive length fires (cancel instants odd, all other instants even); zero-length pauses and contexts that are over before the call are generated: there the timer and ctx.Done are ready together, and the current source (timer case re-checks ctx.Err(), fix 318fd40) ends the call either way; a request whose context has ended is answered by the scripted transport with the context's error at once, as net/http's transport does",
         "manifestStore.push buffering is modelled as 'a one-shot body becomes replayable iff the client is *auth.Client' and exercised with a non-indexed manifest media type; the digest/size verification of cas.Memory is C05's",
     ],
-    "level_text": "Coq theorems for every script of server behaviours, body kind/size, policy parameter set, attempt number and cancellation instant: each send makes between 1 and MaxRetry+1 attempts; every pause GenericPolicy.Retry computes and every pause the transport makes lies in [MinWait, MaxWait] (Retry-After on 429 honoured within them); a non-retryable answer (for DefaultPredicate: anything but 408/429/0/5xx and net.Error values reporting Timeout() -- Temporary() alone is not retried; both branches regenerated from policy.go) is returned after exactly one attempt; on every attempt of the retry transport and of the auth client's re-send the registry receives exactly the prefix it reads of the complete original body (the whole body when it reads to the end); a body without a working GetBody is sent once and the call ends with that answer (transport) or the rewind error (auth client); no attempt starts after the context ended and a context ending during a pause ends the call with the context's error at that instant; ExponentialBackoff is total on the current source (refuted with a witness for the original source, defect F7, fixed). The model is tied to the code by regenerated constants (DefaultPolicy numbers, DefaultPredicate status branch, jitter guard), by a correspondence run of real retry.Transport / auth.Client / Repository manifest push over a scripted transport under synctest's fake clock (exact attempt instants, per-attempt received bytes), and by an independent oracle.",
-    "level_note": "net.Error classification of Go error values is declared per shape by the harness (self-checked) and abstracted to three booleans in the model; blob push modelled for an empty token cache; float64 arithmetic and the random jitter of ExponentialBackoff are modelled with exact rationals and an acceptor with rounding allowance; auth client modelled only as far as re-sending goes (cold cache, warm Bearer cache); net/http client plumbing, strconv.ParseInt and synctest are trusted/hand-modelled (see assumptions)",
+    "level_text": "Coq theorems for every script of server behaviours, body kind/size, policy parameter set, attempt number and cancellation instant: each send makes between 1 and MaxRetry+1 attempts; every pause GenericPolicy.Retry computes and every pause the transport makes lies in [MinWait, MaxWait] (Retry-After on 429 honoured within them); a non-retryable answer (for DefaultPredicate: anything but 408/429/0/5xx and net.Error values reporting Timeout() -- Temporary() alone is not retried; both branches regenerated from policy.go) is returned after exactly one attempt; on every attempt of the retry transport and of the auth client's re-send the registry receives exactly the prefix it reads of the complete original body (the whole body when it reads to the end); a body without a working GetBody is sent once and the call ends with that answer (transport) or the rewind error (auth client); with a context ending at tc every attempt but the first of a send starts strictly before tc, the call is over at tc, and a pause the context ends in (or that starts after it ended: zero pauses, contexts over from the start) ends the call -- transport, auth client (all sends) and blob push -- with the context's error at that instant, without any hypothesis on the policy (defect: the original select could go on attempting after the context ended when the pause was zero; fixed 318fd40); on the whole trace every answer but the last was retryable and the call returns the last answer; ExponentialBackoff is total on the current source (refuted with a witness for the original source, defect F7, fixed). The model is tied to the code by regenerated constants (DefaultPolicy numbers, DefaultPredicate status branch, jitter guard), by a correspondence run of real retry.Transport / auth.Client / Repository manifest push over a scripted transport under synctest's fake clock (exact attempt instants, per-attempt received bytes), and by an independent oracle.",
+    "level_note": "oracle-only (no theorem, not in the model): headers of re-sent requests (method, URL, Content-Type, Content-Length: clause request-changed), token requests of the OAuth2/distribution flows through the same retrying client (scripted token service), net/http's real transport (httptest, 1-8 MiB bodies, answers before the body is read), retry.DefaultPolicy end to end incl. cancellation, bodies over 64 KiB; net.Error classification of Go error values is declared per shape by the harness (self-checked) and abstracted to three booleans in the model; blob push modelled for an empty token cache; float64 arithmetic and the random jitter of ExponentialBackoff are modelled with exact rationals and an acceptor with rounding allowance; auth client modelled only as far as re-sending goes (cold cache, warm Bearer cache); net/http client plumbing, strconv.ParseInt and synctest are trusted/hand-modelled (see assumptions)",
     "technique": "machine-checked proof in Coq (loop invariants over the retry loop as a transition function; universal statements over policies, scripts, bodies, cancellation instants) + translator-regenerated constants/decision branch + model/implementation correspondence under testing/synctest fake time + independent oracle",
-    "explanation": "theorems about Model/Retry.v (GenericPolicy.Retry, DefaultPredicate, ExponentialBackoff, Transport.RoundTrip loop as a transition function, auth.Client.Do re-sends for a cold and a warm Bearer token cache, manifest push buffering); harness under testing/synctest fake time: exhaustive behaviour sequences (length <= 3 quick / 5 thorough) x body kinds x three stacks, every odd cancellation instant of small scripts (cancel and deadline), random scripts with partial body reads, latencies, Retry-After values, GetBody failures, unknown Content-Length, several methods, preset Authorization, bodies up to 1 MiB (oracle only), retry.DefaultPolicy end to end (oracle only), manifest pushes with one-shot readers through auth and plain clients, blob pushes (POST then PUT; exhaustive sequences up to length 4 quick / 6 thorough and random) through auth and plain clients, 19 transport-error shapes with every (net.Error, Timeout, Temporary) combination wrapped and unwrapped, custom Retryable predicates (retry/stop/fail tables), a 300-case sample re-evaluated inside Coq with vm_compute in the thorough tier, and a sweep of policy decision points (attempt 0..80, backoff, factor, jitter incl. 0/negative/tiny, bounds incl. extreme, Retry-After incl. huge/garbage) judged by an acceptor proved complete for the model; oracle clauses: body-truncated, too-many-attempts, pause-bounds, nonretryable-retried, oneshot-resent, cancel-ignored/late/result, wrong-result, backoff-panic, maxretry-ignored, retry-after",
+    "explanation": "theorems about Model/Retry.v (GenericPolicy.Retry, DefaultPredicate, ExponentialBackoff, Transport.RoundTrip loop as a transition function, auth.Client.Do re-sends for a cold and a warm Bearer token cache, manifest push buffering); harness under testing/synctest fake time: exhaustive behaviour sequences (length <= 3 quick / 5 thorough) x body kinds x three stacks, every odd cancellation instant of small scripts (cancel and deadline), random scripts with partial body reads, latencies, Retry-After values, GetBody failures, unknown Content-Length, several methods, preset Authorization, bodies up to 1 MiB (oracle only), retry.DefaultPolicy end to end (oracle only), manifest pushes with one-shot readers through auth and plain clients, blob pushes (POST then PUT; exhaustive sequences up to length 4 quick / 6 thorough and random) through auth and plain clients, 19 transport-error shapes with every (net.Error, Timeout, Temporary) combination wrapped and unwrapped, custom Retryable predicates (retry/stop/fail tables), a 300-case sample re-evaluated inside Coq with vm_compute in the thorough tier, and a sweep of policy decision points (attempt 0..80, backoff, factor, jitter incl. 0/negative/tiny, bounds incl. extreme, Retry-After incl. huge/garbage) judged by an acceptor proved complete for the model; body kind http.NoBody without GetBody, warm token caches (other scope key: W; the request's own key: V; within a blob push: X), zero-length pauses and contexts that ended before the call, a scripted token service (OAuth2 POST retried), real net/http transport scenarios; oracle clauses: request-changed, real-body-truncated, body-truncated, too-many-attempts, pause-bounds, nonretryable-retried, oneshot-resent, cancel-ignored/late/result, wrong-result, backoff-panic, maxretry-ignored, retry-after",
 }
